@@ -19,6 +19,10 @@ OBLIGATIONS = [
     "KafVerif.C03.read_run",
     "KafVerif.C03.read_run_reachable",
     "KafVerif.C03.read_only_caches",
+    "KafVerif.C03.read_run_gapped",
+    "KafVerif.C03.read_run_after_loss",
+    "KafVerif.C03.handouts_stable",
+    "KafVerif.C03.shared_buffer_unstable",
 ]
 ASSUMPTIONS = [
     "S3 is the in-memory client (atomic whole-object put, read-after-write, clamped range reads); upload failures are C01/C05's subject and are not generated; "
@@ -41,6 +45,8 @@ LEVEL_TEXT = ("Lean 4 theorems, for every configuration and every operation sequ
 LEVEL_NOTE = ("Trusted: Lean kernel; the hand-written model of log.go/buffer.go/index.go/segment.go; the Go harness and generators. "
               "Cache coherence is an invariant of the model (C09 proves the cache itself); S3 is the in-memory client.")
 BUILDS = {"st": ("root", "./cmd/verif_c03", ["C03"]), "br": ("root", "./cmd/broker", ["C02", "C03"])}
+# C03 itself also fetches THROUGH THE PROXY (cmd/proxy fan-out + merge, harness and monitor of C27): "never another topic's data"
+BUILDS_C03 = dict(BUILDS, px=("root", "./cmd/proxy", ["C27"]))
 DRIVER = "C03"
 
 
@@ -932,11 +938,65 @@ MONITORS = {"st": monitor, "br": bmonitor}
 MONITORS_ALL = {"st": _monitor, "br": _bmonitor}
 
 
+# ----------------------------------------------------------------------------- fetch through the proxy
+def proxy_fetch_ops(ck, ncases):
+    """Multi-topic fetches through cmd/proxy (C27's harness: real proxy, scripted backends whose reply entries carry a record
+    payload naming (topic, partition, send)): topics addressed by NAME (v11, v12) and by TOPIC ID only (v13), 2-4 topics per
+    request, partitions spread over three backends, now and then a NOT_LEADER answer (retry + merge of a second reply)."""
+    ops = []
+    for c in range(ncases):
+        r = ck.rng.fork()
+        route = ",".join("%d:%d=%d" % (t, p, r.below(3)) for t in range(4) for p in range(4) if not r.chance(1, 8))
+        ops.append("setup route=%s known=0,1,2 unres=- down=-" % (route or "-"))
+        for _ in range(2):
+            v = r.choice([13, 13, 12, 11])
+            topics = []
+            while len(topics) < r.choice([2, 2, 3, 4]):
+                t = r.below(4)
+                if t not in topics:
+                    topics.append(t)
+            entries = [(t, sorted(set(r.below(4) for _ in range(r.range(1, 3))))) for t in topics]
+            codes = []
+            if r.chance(1, 4):
+                t, ps = r.choice(entries)
+                codes.append("%d:%d:0=6" % (t, r.choice(ps)))
+            ops.append("F v=%d req=%s code=%s fault=-" % (v, ";".join("%d:%s" % (t, "+".join(map(str, ps))) for t, ps in entries),
+                                                       ",".join(codes) or "-"))
+    return ops
+
+
+def run_proxy_stream(ck, binary, ops):
+    from checks import C27
+    fn, impl, crash = C27.run_impl(ck, binary, ops, "proxy")
+    if crash:
+        ck.broke("proxy harness (C27) did not answer every op of the proxy fetch stream", crash)
+        return False
+    ok = True
+    for i, (o, line) in enumerate(zip(ops, impl)):
+        if o.startswith("setup"):
+            continue
+        ctx = C27.context_ops(ops, i)
+        ck.count("proxy:fetch:v" + C27.kv(o, "v"))
+        ck.case(tuple(ctx), nontrivial=len(C27.parse_recv(C27.kv(line, "recv"))) >= 2 if line.startswith("reply=") else False,
+                sample={"stream": "proxy", "ops": ctx, "impl": line[:300]})
+        mon = C27.monitor(o, line)
+        if mon is None and "anomaly=" in line:
+            mon = ("anomaly", C27.kv(line, "anomaly"))
+        if mon and ck.violation("proxy-fetch-" + mon[0], "fetch through the proxy: %s" % mon[1],
+                                {"ops": ctx, "harness": "px", "actual": line,
+                                 "expected": "one entry per requested topic-partition, each carrying the records of its own topic-partition"}):
+            ok = False
+    return ok
+
+
 # ----------------------------------------------------------------------------- C03 itself
 def run(ck):
     ck.partial = ("read_run_reachable covers every reachable log whose accepted record sets declare their batch length (all real clients) with "
                   "offsets inside int64 and segments < 2 GiB; for record sets with a zero length field (accepted for the repo's fixtures) only "
-                  "the buffer/flush-window theorems apply - the segment path is then covered by the correspondence run and the monitor only")
+                  "the buffer/flush-window theorems apply - the segment path is then covered by the correspondence run and the monitor only; "
+                  "object loss: read_run_after_loss covers ONE loss+restart after any fault-free history (read_run_gapped any log satisfying the "
+                  "gapped invariant); that the gapped invariant is preserved by appends/flushes after such a restart and by repeated loss+restart "
+                  "rounds is exercised by the holes stream (correspondence + monitor), not proved")
     bins = ck.build_all()
     if bins is None:
         return
@@ -949,6 +1009,11 @@ def run(ck):
                       "non-trivial = a fetch returned data and a produce was rejected")
     ncases, nops = (36, 70) if ck.quick() else (300, 110)
     corpus(ck, bins, "C03")
+    px, log = ck.go_build(*BUILDS_C03["px"], name="h_px")
+    if px is None:
+        ck.broke("correspondence harness build px (cmd/proxy, overlay C27)", log)
+    else:
+        run_proxy_stream(ck, px, proxy_fetch_ops(ck, 40 if ck.quick() else 400))
     ok = run_streams(ck, bins, "C03", DRIVER, [
         ("histories", "st", storage_ops(ck, ncases, nops)),
         ("xpartition", "st", xpart_ops(ck, 8 if ck.quick() else 80)),
@@ -962,4 +1027,13 @@ def run(ck):
 
 
 def replay(ck, path):
+    rep = json.load(open(path))
+    if rep.get("harness") == "px":
+        px, log = ck.go_build(*BUILDS_C03["px"], name="h_px")
+        if px is None:
+            ck.broke("correspondence harness build px (cmd/proxy, overlay C27)", log)
+            return
+        run_proxy_stream(ck, px, rep["ops"])
+        ck.cov["distinct_nontrivial"] = max(ck.cov["distinct_nontrivial"], 2)
+        return
     replay_generic(ck, path, "C03")
